@@ -295,6 +295,37 @@ theorem sortOn_map_eq_of_perm (key : β → Nat) (f g : α → β) {l₁ l₂ : 
   obtain ⟨b, hb, rfl⟩ := List.mem_map.mp hy
   rw [hk a ha b hb hxy]
 
+theorem filterMap_congr' (f g : α → Option β) (l : List α) (h : ∀ a ∈ l, f a = g a) :
+    l.filterMap f = l.filterMap g := by
+  induction l with
+  | nil => rfl
+  | cons a l ih =>
+    simp only [List.filterMap_cons, h a List.mem_cons_self,
+      ih (fun b hb => h b (List.mem_cons_of_mem _ hb))]
+
+/-- a dict dump `[f k for k in keys if f k is not None]` where every entry reports its key -/
+theorem sortOn_filterMap_congr (key : β → Nat) (f g : Nat → Option β) {l₁ l₂ : List Nat} (h : l₁.Perm l₂)
+    (hfg : ∀ a ∈ l₁, f a = g a) (hk : ∀ a b, f a = some b → key b = a) :
+    sortOn key (l₁.filterMap f) = sortOn key (l₂.filterMap g) := by
+  have hg : l₂.filterMap g = l₂.filterMap f :=
+    filterMap_congr' _ _ _ (fun a ha => (hfg a (h.mem_iff.mpr ha)).symm)
+  rw [hg]
+  apply sortOn_eq_of_perm key (h.filterMap f)
+  intro x hx y hy hxy
+  obtain ⟨a, _, hax⟩ := List.mem_filterMap.mp hx
+  obtain ⟨b, _, hby⟩ := List.mem_filterMap.mp hy
+  have hab : a = b := by rw [← hk a x hax, ← hk b y hby, hxy]
+  subst hab
+  rw [hax] at hby
+  exact Option.some.inj hby
+
+theorem perm_filterMap_congr (f g : α → Option β) {l₁ l₂ : List α} (h : l₁.Perm l₂)
+    (hfg : ∀ a ∈ l₁, f a = g a) : (l₁.filterMap f).Perm (l₂.filterMap g) := by
+  have hg : l₂.filterMap g = l₂.filterMap f :=
+    filterMap_congr' _ _ _ (fun a ha => (hfg a (h.mem_iff.mpr ha)).symm)
+  rw [hg]
+  exact h.filterMap f
+
 /-- the observation of a first-wins table: its entries sorted by key -/
 def obs (key : κ → Nat) (t : List (κ × β)) : List (κ × β) := sortOn (fun e => key e.1) t
 
